@@ -141,3 +141,65 @@ pub fn rng_bytes32(seed: &[u8; 32]) -> [u8; 32] {
     let mut g = rand_chacha::ChaCha20Rng::from_seed(*seed);
     g.gen::<[u8; 32]>()
 }
+
+// ---------------------------------------------------------------------------------------
+// Reference BLS (draft-irtf-cfrg-bls-signature) on the pure-Rust backend, used un-hooked.
+// ---------------------------------------------------------------------------------------
+use bls12_381_plus::elliptic_curve::hash2curve::ExpandMsgXmd;
+
+pub fn ref_hash_g1(msg: &[u8], dst: &[u8]) -> r::G1Projective {
+    r::G1Projective::hash::<ExpandMsgXmd<Sha256>>(msg, dst)
+}
+pub fn ref_hash_g2(msg: &[u8], dst: &[u8]) -> r::G2Projective {
+    r::G2Projective::hash::<ExpandMsgXmd<Sha256>>(msg, dst)
+}
+
+pub fn dec_g1(b: &[u8]) -> Option<r::G1Affine> {
+    if b.len() != 48 {
+        return None;
+    }
+    let mut a = [0u8; 48];
+    a.copy_from_slice(b);
+    r::G1Affine::from_compressed(&a).into()
+}
+pub fn dec_g2(b: &[u8]) -> Option<r::G2Affine> {
+    if b.len() != 96 {
+        return None;
+    }
+    let mut a = [0u8; 96];
+    a.copy_from_slice(b);
+    r::G2Affine::from_compressed(&a).into()
+}
+
+/// CoreSign: compressed signature bytes. `sig_in_g1` = minimal-signature-size variant.
+pub fn ref_core_sign(sig_in_g1: bool, sk: &RScalar, msg: &[u8], dst: &[u8]) -> Vec<u8> {
+    if sig_in_g1 {
+        (ref_hash_g1(msg, dst) * sk).to_affine().to_compressed().to_vec()
+    } else {
+        (ref_hash_g2(msg, dst) * sk).to_affine().to_compressed().to_vec()
+    }
+}
+
+pub fn ref_sk_to_pk(sig_in_g1: bool, sk: &RScalar) -> Vec<u8> {
+    if sig_in_g1 { enc_g2(sk) } else { enc_g1(sk) }
+}
+
+/// CoreVerify on compressed bytes (KeyValidate: valid, non-identity; signature subgroup check
+/// via checked decompression; identity signature rejected as blsful documents).
+pub fn ref_core_verify(sig_in_g1: bool, pk: &[u8], sig: &[u8], msg: &[u8], dst: &[u8]) -> bool {
+    if sig_in_g1 {
+        let (Some(p), Some(s)) = (dec_g2(pk), dec_g1(sig)) else { return false };
+        if bool::from(p.is_identity()) || bool::from(s.is_identity()) {
+            return false;
+        }
+        let h = ref_hash_g1(msg, dst).to_affine();
+        r::pairing(&h, &p) == r::pairing(&s, &r::G2Affine::generator())
+    } else {
+        let (Some(p), Some(s)) = (dec_g1(pk), dec_g2(sig)) else { return false };
+        if bool::from(p.is_identity()) || bool::from(s.is_identity()) {
+            return false;
+        }
+        let h = ref_hash_g2(msg, dst).to_affine();
+        r::pairing(&p, &h) == r::pairing(&r::G1Affine::generator(), &s)
+    }
+}
